@@ -233,6 +233,7 @@ func sampleValues() []tengo.Object {
 		flt(0), flt(2.5), flt(-3.99), flt(1e10), flt(9.3e18), flt(-9.3e18), flt(math.NaN()), flt(math.Inf(1)), flt(math.Copysign(0, -1)), flt(4.9e-324),
 		str(""), str("abc"), str("42"), str("-7"), str("+5"), str(" 1"), str("1e3"), str("0x10"), str("1_0"), str("9223372036854775807"),
 		str("9223372036854775808"), str("-9223372036854775808"), str("-9223372036854775809"), str("007"), str("2.5"), str("inf"), str("\xff\xfeA"), str("-"),
+		str("010"), str("08"), str("0x1p4"), str("0.1"), // round 8: decimal with a leading zero (octal 8 / not octal), hex float, not a float32
 		tengo.TrueValue, tengo.FalseValue,
 		&tengo.Char{Value: 'a'}, &tengo.Char{Value: 0x4e16}, &tengo.Char{Value: 0x1F600}, &tengo.Char{Value: 0xD800}, &tengo.Char{Value: -1}, &tengo.Char{Value: 0xe9},
 		&tengo.Bytes{Value: []byte("hi\x00\xff")}, &tengo.Bytes{Value: nil},
